@@ -24,7 +24,7 @@ pub(crate) fn parse_ref<R: Read>(scanner: &mut Scanner<R>) -> Result<Ref, Error>
     }
 
     let mut dis: Option<String> = None;
-    if !scanner.is_eof && scanner.cur == b' ' && scanner.peek()? == b'"' {
+    if !scanner.is_eof && scanner.cur == b' ' && scanner.safe_peek() == Some(b'"') {
         scanner.read()?;
         dis = Some(parse_str(scanner)?.value);
     }
